@@ -254,7 +254,25 @@ def crafted(rng, kind, seed):
     """targeted hostile files"""
     if kind == "dex":
         b = bytearray(seed)
-        choice = rng.choice(["unterminated-string-at-eof", "string-count-max", "map-size-max", "class-defs-max", "string-off-eof"])
+        choice = rng.choice(["unterminated-string-at-eof", "string-count-max", "map-size-max", "class-defs-max", "string-off-eof", "unaligned-end-and-code-past-eof",
+                             "code-section-offset-unaligned-past-eof"])
+        if choice in ("unaligned-end-and-code-past-eof", "code-section-offset-unaligned-past-eof"):
+            # file length not a multiple of 4 / a code section announced at an unaligned offset behind the end, while more code items are expected
+            mo = struct.unpack_from("<I", b, 52)[0]
+            if mo + 4 <= len(b):
+                cnt = struct.unpack_from("<I", b, mo)[0]
+                for e in range(min(cnt, 40)):
+                    t, _, size, off = struct.unpack_from("<HHII", b, mo + 4 + 12 * e)
+                    if t == 0x2001 and off + 16 <= len(b):
+                        if choice == "unaligned-end-and-code-past-eof":
+                            struct.pack_into("<I", b, off + 12, rng.choice([0x7FFFFFFF, (len(b) - off) // 2 + 5, 0x100000]))   # insns_size of the first code item
+                            struct.pack_into("<I", b, mo + 4 + 12 * e + 4, size + rng.choice([1, 2, 50]))
+                        else:
+                            struct.pack_into("<I", b, mo + 4 + 12 * e + 8, len(b) + rng.choice([1, 3, 5, 1001]))
+                        break
+            b += bytes(rng.choice([1, 2, 3]))
+            struct.pack_into("<I", b, 32, len(b))
+            return fix_dex(b), choice
         if choice == "unterminated-string-at-eof":
             # point a string id at data appended at the end of the file without a NUL terminator
             ss, so = struct.unpack_from("<II", b, 56)
@@ -276,6 +294,16 @@ def crafted(rng, kind, seed):
             if ss:
                 struct.pack_into("<I", b, so + 4 * rng.randrange(ss), rng.choice([len(b) - 1, len(b), len(b) + 1, 0xFFFFFFFF]))
         return fix_dex(b), choice
+    if kind == "axml" and rng.random() < 0.25:
+        # a namespace prefix that is no XML name (lxml rejects it; the printer then tries to repair the prefix map)
+        from vf.model import axmlw as AW
+        bad = rng.choice(["a\tb", "and'roid", "andr\x7fid", "a\\b", "a\nb", "a\rb", "<!--", "1a", "a b", "a:b", "a\"b", "é\t", "x\x0by"])
+        root = AW.Elem(None, "manifest", nsdecls=[(bad, "http://schemas.android.com/apk/res/android")] + ([("ok", "urn:ok")] if rng.random() < 0.5 else []),
+                       attrs=[AW.Attr(None, "package", AW.TYPE_STRING, value="p.q")], children=[AW.Elem(None, "application", children=[AW.Elem(None, "activity")])])
+        try:
+            return AW.build(AW.Doc(root, utf8=rng.random() < 0.5)), "hostile-namespace-prefix"
+        except Exception:
+            pass
     b = bytearray(seed)
     n = len(b)
     choice = rng.choice(["chunk-size-zero", "chunk-size-backwards", "chunk-size-max", "header-size-max", "string-count-max", "garbage-tail"])
